@@ -370,6 +370,12 @@ pub struct CaseInfo {
     pub returned_to_empty: usize,
     pub max_id: u32,
     pub tolerated: Vec<String>,
+    pub drains: usize,
+    pub garbage: usize,
+    /// the schedule was cut short by the per-case work bound
+    pub truncated: bool,
+    /// calls during which a task aborted a command or another task
+    pub in_task_aborts: usize,
 }
 
 pub struct CaseCfg {
@@ -383,6 +389,31 @@ pub struct CaseCfg {
     pub tolerate: Vec<String>,
 }
 
+/// Why a case failed: every clause that failed in the first failing call, and what that call was.
+#[derive(Debug)]
+pub struct CaseFail {
+    /// the shell action whose call failed
+    pub act: String,
+    /// the call was a cancellation (drop / abort), a resolution addressed to cancelled work, or a
+    /// call during which a task cancelled other work: its consequences are what C06 is about
+    pub cancel_context: bool,
+    pub msgs: Vec<String>,
+}
+
+impl CaseFail {
+    fn driver(e: String) -> Self {
+        CaseFail { act: String::new(), cancel_context: false, msgs: vec![e] }
+    }
+}
+
+/// one call of the schedule: a generated action, or one resolution of a `Drain`
+#[derive(Debug, Clone)]
+enum Step {
+    Act(Act),
+    /// resolve the oldest (0) / newest (1) / a pseudo-randomly chosen outstanding request
+    DrainOne(u8, u32),
+}
+
 fn sorted<T: Ord>(mut v: Vec<T>) -> Vec<T> {
     v.sort();
     v
@@ -394,7 +425,7 @@ fn sorted<T: Ord>(mut v: Vec<T>) -> Vec<T> {
 /// they were evaluated), so that the caller can report the failure of a clause it owns even when
 /// another clause fails in the same call. After a failed replay the reference is out of step and
 /// nothing further is evaluated.
-pub fn run_case(u: &Universe, cfg: &CaseCfg) -> Result<CaseInfo, Vec<String>> {
+pub fn run_case(u: &Universe, cfg: &CaseCfg) -> Result<CaseInfo, CaseFail> {
     let mut u = u.clone();
     crate::gen::sanitize(&mut u);
     let u = &u;
@@ -413,21 +444,78 @@ pub fn run_case(u: &Universe, cfg: &CaseCfg) -> Result<CaseInfo, Vec<String>> {
     let mut open: BTreeMap<Path, Op> = BTreeMap::new();
     let mut answered: Vec<Path> = vec![];
     let mut nonce = 0u32;
-    let mut issue_order: Vec<Path> = vec![];
+    let mut issue_rank: BTreeMap<Path, usize> = BTreeMap::new();
     let mut last_resolved_rank = 0usize;
     let mut applied_before = 0usize;
     let mut was_outstanding = 0usize;
 
-    let mut acts: Vec<Act> = vec![Act::Start(0)];
-    acts.extend(u.acts.iter().cloned());
+    let mut steps: VecDeque<Step> = VecDeque::new();
+    steps.push_back(Step::Act(Act::Start(0)));
+    steps.extend(u.acts.iter().cloned().map(Step::Act));
 
-    for act in acts {
+    while let Some(step) = steps.pop_front() {
+        if l1.updates.len() > 30_000 || info.calls > 4_000 {
+            info.truncated = true; // work bound per case (a long drain of a stream whose consumer emits a burst per item)
+            break;
+        }
+        let act = match step.clone() {
+            Step::Act(Act::Drain(n, pat)) => {
+                // n resolutions, each its own call, judged like any other
+                info.drains += 1;
+                let mut seed = (pat as u32).wrapping_mul(2_654_435_761).wrapping_add(1);
+                for _ in 0..n {
+                    seed = seed.wrapping_mul(1_664_525).wrapping_add(1_013_904_223);
+                    steps.push_front(Step::DrainOne(pat, seed));
+                }
+                continue;
+            }
+            Step::DrainOne(pat, seed) => {
+                // translate into an ordinary resolution of one particular request
+                let cands: Vec<(&Path, usize)> = open.iter().filter(|(_, o)| o.kind != NOTE).map(|(p, _)| (p, issue_rank.get(p).copied().unwrap_or(0))).collect();
+                if cands.is_empty() {
+                    continue;
+                }
+                let ix = match pat {
+                    0 => cands.iter().enumerate().min_by_key(|(_, c)| c.1).unwrap().0,
+                    1 => cands.iter().enumerate().max_by_key(|(_, c)| c.1).unwrap().0,
+                    _ => (seed >> 8) as usize % cands.len(),
+                };
+                // the choice value that `pick` maps onto index ix
+                Act::Resolve((((ix as u64) << 16).div_ceil(cands.len() as u64)).min(65535) as u16)
+            }
+            Step::Act(a) => a,
+        };
         info.actions += 1;
         let open_paths: Vec<Path> = open.keys().cloned().collect();
         // translate the abstract action into stamped trace events + host calls
         let mut expect: Option<Expect> = None;
+        let mut cancel_context = matches!(act, Act::Drop(_) | Act::AbortCmd(_) | Act::AbortTask(_) | Act::ResolveAgain(_));
+        let cancellations_before = reference.world().cancellations;
+        let act_text = format!("{act:?}");
         let called: Result<Obs, String> = (|| {
             Ok(match act {
+                Act::Drain(..) => unreachable!(),
+                Act::Garbage(c) => {
+                    // undecodable bytes as the response to a live stream: rejected, and nothing else happens
+                    if host.can_drop() {
+                        return Err(String::new());
+                    }
+                    let cands: Vec<&Path> = open_paths.iter().filter(|p| open[*p].kind == SUB && host.id_still_names(p)).collect();
+                    if cands.is_empty() {
+                        return Err(String::new());
+                    }
+                    let path = cands[pick(c, cands.len())].clone();
+                    info.garbage += 1;
+                    expect = Some(Expect::Err);
+                    let bytes: &[u8] = if host.is_json() { b"\"x" } else { &[0xff] };
+                    match vkit::panics::catch(|| host.respond_bytes(&path, bytes, false)).map_err(|p| format!("[bridge-panic] handle_response panicked on undecodable bytes: {p}"))?? {
+                        None => Obs { effects: vec![], resolve_ok: Some(false) },
+                        Some(mut obs) => {
+                            obs.resolve_ok = Some(true);
+                            obs
+                        }
+                    }
+                }
                 Act::Start(p) => {
                     let prog = (p as usize % u.programs.len()) as u16;
                     host.send(Event::Start { uni: uni.id, prog })?
@@ -442,7 +530,10 @@ pub fn run_case(u: &Universe, cfg: &CaseCfg) -> Result<CaseInfo, Vec<String>> {
                     nonce += 1;
                     let out = Out::new(nonce);
                     expect = reference.expect_resolve(&path);
-                    if let Some(rank) = issue_order.iter().position(|p| p == &path) {
+                    if reference.is_cancelled_target(&path) {
+                        cancel_context = true;
+                    }
+                    if let Some(rank) = issue_rank.get(&path).copied() {
                         if rank < last_resolved_rank {
                             info.out_of_order = true;
                         }
@@ -531,16 +622,27 @@ pub fn run_case(u: &Universe, cfg: &CaseCfg) -> Result<CaseInfo, Vec<String>> {
         let obs = match called {
             Ok(obs) => obs,
             Err(e) if e.is_empty() => continue, // the action does not apply right now
-            Err(e) => return Err(vec![e]),
+            Err(e) => return Err(CaseFail { act: act_text, cancel_context, msgs: vec![e] }),
         };
         info.calls += 1;
 
         // ---- judge the call: first the model-free invariants, then the replay on the reference
         let trace = sink.take();
+        if std::env::var_os("VERIF_TRACE").is_some() {
+            eprintln!("--- {act_text}: effects {:?} resolve_ok {:?}", obs.effects, obs.resolve_ok);
+            for t in &trace {
+                eprintln!("      {t:?}");
+            }
+        }
         let mut fails = l1.check_call(&trace, &obs);
         if let Err(e) = reference.replay(&witness_only(&trace)) {
             fails.push(e);
-            return Err(fails); // the reference is out of step now
+            let cancel_context = cancel_context || reference.world().cancellations != cancellations_before;
+            return Err(CaseFail { act: act_text, cancel_context, msgs: fails }); // the reference is out of step now
+        }
+        if reference.world().cancellations != cancellations_before {
+            cancel_context = true; // a task aborted a command or another task during this call
+            info.in_task_aborts += 1;
         }
         // what the tasks received (traced leaves): the reference, polled in the same order, must agree
         {
@@ -561,23 +663,24 @@ pub fn run_case(u: &Universe, cfg: &CaseCfg) -> Result<CaseInfo, Vec<String>> {
         if got != want {
             fails.push(format!("the call returned effects {got:?}, the reference semantics gives {want:?}"));
         }
-        match host.view() {
-            Err(e) => fails.push(e),
-            Ok(view) => {
-                if let Some(e) = l1.check_view(&view) {
-                    fails.push(e);
-                }
-                let w = reference.world();
-                if !w.pending.is_empty() {
-                    fails.push(format!("events were emitted but not applied when the call returned: {:?}", w.pending));
-                }
-                info.max_events_in_call = info.max_events_in_call.max(w.applied.len() - applied_before);
-                applied_before = w.applied.len();
-                info.follow_ups = w.follow_ups as usize;
-                let log = sorted(view);
-                let applied = sorted(w.applied.clone());
-                if log != applied {
-                    fails.push(format!("the view shows {log:?}, the events applied according to the reference are {applied:?}"));
+        {
+            let w = reference.world();
+            if !w.pending.is_empty() {
+                fails.push(format!("events were emitted but not applied when the call returned: {:?}", &w.pending[..w.pending.len().min(8)]));
+            }
+            info.max_events_in_call = info.max_events_in_call.max(w.applied.len() - applied_before);
+            info.follow_ups = w.follow_ups as usize;
+        }
+        // the view is the log of the events update was given (checked whenever the log grew, and every 8th call)
+        let grew = reference.world().applied.len() != applied_before;
+        applied_before = reference.world().applied.len();
+        if grew || info.calls % 8 == 0 {
+            match host.view() {
+                Err(e) => fails.push(e),
+                Ok(view) => {
+                    if let Some(e) = l1.check_view(&view) {
+                        fails.push(e);
+                    }
                 }
             }
         }
@@ -633,11 +736,12 @@ pub fn run_case(u: &Universe, cfg: &CaseCfg) -> Result<CaseInfo, Vec<String>> {
             }
         }
         if !fails.is_empty() {
-            return Err(fails);
+            return Err(CaseFail { act: act_text, cancel_context, msgs: fails });
         }
         for op in obs.effects {
             info.max_effects_in_call = info.max_effects_in_call.max(got.len());
-            issue_order.push(op.path.clone());
+            let r = issue_rank.len();
+            issue_rank.insert(op.path.clone(), r);
             open.insert(op.path.clone(), op);
         }
         let now_outstanding = open.values().filter(|o| o.kind != NOTE).count();
@@ -658,7 +762,7 @@ pub fn run_case(u: &Universe, cfg: &CaseCfg) -> Result<CaseInfo, Vec<String>> {
     if cfg.release_checks {
         let alive = sink.wrappers_alive.load(std::sync::atomic::Ordering::SeqCst);
         if alive != 0 {
-            return Err(vec![format!("[retained-after-drop] {alive} task futures still exist after the host was dropped")]);
+            return Err(CaseFail::driver(format!("[retained-after-drop] {alive} task futures still exist after the host was dropped")));
         }
     }
     drop(guard);
